@@ -60,6 +60,42 @@ def discover_state(ctx: Ctx) -> dict:
         for n in walk_own(f.node):
             if isinstance(n, ast.Global):
                 declared |= set(n.names)
+        # locals that can be a module-level container under another name
+        aliases: dict = {}
+
+        def owners_of(e):
+            out_ = set()
+            if isinstance(e, ast.Name) and e.id not in local_names and (mi.relpath, e.id) in mutable_container_keys:
+                out_.add((mi.relpath, e.id))
+            elif isinstance(e, ast.Name) and e.id not in local_names and e.id in mi.imports and "." in mi.imports[e.id]:
+                head_, tail_ = mi.imports[e.id].rsplit(".", 1)
+                m2_ = m.by_dotted.get(head_)
+                if m2_ is not None and (m2_.relpath, tail_) in mutable_container_keys:
+                    out_.add((m2_.relpath, tail_))
+            elif isinstance(e, ast.IfExp):
+                out_ |= owners_of(e.body) | owners_of(e.orelse)
+            elif isinstance(e, ast.BoolOp):
+                for v_ in e.values:
+                    out_ |= owners_of(v_)
+            return out_
+        a_ = f.node.args
+        pos_ = a_.posonlyargs + a_.args
+        for p_, d_ in list(zip(pos_[len(pos_) - len(a_.defaults):], a_.defaults)) + [(p2, d2) for p2, d2 in zip(a_.kwonlyargs, a_.kw_defaults) if d2 is not None]:
+            saved_ = set(local_names)
+            local_names.discard(p_.arg)
+            if owners_of(d_):
+                aliases.setdefault(p_.arg, set()).update(owners_of(d_))
+            local_names.clear(); local_names.update(saved_)
+        for n in walk_own(f.node):
+            tgt_, val_ = None, None
+            if isinstance(n, ast.Assign) and len(n.targets) == 1 and isinstance(n.targets[0], ast.Name):
+                tgt_, val_ = n.targets[0].id, n.value
+            elif isinstance(n, ast.AnnAssign) and isinstance(n.target, ast.Name) and n.value is not None:
+                tgt_, val_ = n.target.id, n.value
+            elif isinstance(n, ast.NamedExpr) and isinstance(n.target, ast.Name):
+                tgt_, val_ = n.target.id, n.value
+            if tgt_ is not None and owners_of(val_):
+                aliases.setdefault(tgt_, set()).update(owners_of(val_))
         for n in walk_own(f.node):
             if isinstance(n, ast.Name) and isinstance(n.ctx, ast.Store) and n.id in declared:
                 found.setdefault((mi.relpath, n.id), set()).add(f.qualname)
@@ -80,6 +116,10 @@ def discover_state(ctx: Ctx) -> dict:
             if root is not None:
                 while isinstance(root, (ast.Subscript,)):
                     root = root.value
+                if isinstance(root, ast.Name) and root.id in aliases:
+                    # a local that may be the module-level container itself ('memo = TABLE', 'def f(memo=TABLE)')
+                    for owner_ in aliases[root.id]:
+                        found.setdefault(owner_, set()).add(f.qualname)
                 if isinstance(root, ast.Name) and root.id not in local_names:
                     owner = None
                     if root.id in mi.global_assigns:
